@@ -450,6 +450,7 @@ impl ThinRetransmits {
 ///     ^        ^ ^
 /// window highest next
 /// ```
+#[cfg_attr(feature = "__verif", derive(Debug))]
 pub(super) struct Dedup {
     window: Window,
     /// Lowest packet number higher than all yet authenticated.
